@@ -75,7 +75,7 @@ func findKVShape(p *load.Program) *kvShape {
 
 func runC03(c *core.Ctx) {
 	runFixtures(c, "drop", "valid")
-	c.Explain("The tree invariant over reachable states is not decidable statically; decided are the preconditions that keep a flat path->record map a tree, on every path of the key-value FS (mem.FS delegates to it): (R03.1) every create site — a save of a record constructed in the operation (Mkdir, MkdirAll, OpenFile with create) or a store of a loaded record under another path (Rename's destination) — is dominated by a successful look-up of path.Dir(p) AND its IsDir()-true edge, or p is the root constant, or the path comes from the ancestor walk whose classifier answers a non-directory with ErrNotDir and which is replayed parent-first; (R03.2) every delete site and Rename's source and destination are dominated by a 'not the root' fact; (R03.3) before Rename's first store there is a test relating both names (other than equality) whose taken edge returns a *LinkError — a directory is never moved into its own subtree; (R03.4) on every path deleting a directory the listing was fetched and found empty; (R03.5) every create site is reached only on paths on which the target path itself was looked up and found absent (failed look-up, errors.Is(err, ErrNotExist)) or not a directory — an existing directory is never overwritten by another record, which would leave its children below a non-directory; (R03.6) every strings.HasPrefix between names in packages keyvalue, mem, mount and the root package tests a prefix ending in '/' (or a constant on an element boundary): routing, listing and the subtree guard match whole path elements, so 'ab' is never treated as inside 'a'; (R03.7) every mode stored back into an existing record (Chmod by path and by handle) copies io/fs.ModeType from the previous mode — bitwise abstraction over &, &^, | with constants — so a directory cannot become a regular file above its children; (R03.8) in Rename no recursive child move is reachable after the source record was deleted and every child move follows the store of the destination record, so a fault between the steps leaves two well-formed directories. NOT claimed: the invariant itself in every reachable state, agreement of listing/Stat/Open, mount and Sub compositions (their only namespace write is AddMount, C06), termination.")
+	c.Explain("The tree invariant over reachable states is not decidable statically; decided are the preconditions that keep a flat path->record map a tree, on every path of the key-value FS (mem.FS delegates to it): (R03.1) every create site — a save of a record constructed in the operation (Mkdir, MkdirAll, OpenFile with create) or a store of a loaded record under another path (Rename's destination) — is dominated by a successful look-up of path.Dir(p) AND its IsDir()-true edge, or p is the root constant, or the path comes from the ancestor walk whose classifier answers a non-directory with ErrNotDir and which is replayed parent-first; (R03.2) every delete site and Rename's source and destination are dominated by a 'not the root' fact; (R03.3) before Rename's first store there is a test relating both names (other than equality) whose taken edge returns a *LinkError — a directory is never moved into its own subtree; (R03.4) on every path deleting a directory the listing was fetched and found empty; (R03.5) every create site is reached only on paths on which the target path itself was looked up and found absent (failed look-up, errors.Is(err, ErrNotExist)) or not a directory — an existing directory is never overwritten by another record, which would leave its children below a non-directory; (R03.6) every strings.HasPrefix between names in packages keyvalue, mem, mount and the root package tests a prefix ending in '/' (or a constant on an element boundary): routing, listing and the subtree guard match whole path elements, so 'ab' is never treated as inside 'a'; (R03.7) every mode stored back into an existing record (Chmod by path and by handle) copies io/fs.ModeType from the previous mode — bitwise abstraction over &, &^, | with constants — so a directory cannot become a regular file above its children; (R03.8) in Rename no recursive child move is reachable after the source record was deleted and every child move follows the store of the destination record, so a fault between the steps leaves two well-formed directories; (R03.9) mount.FS.Rename scans the mount table for mount points below the old name before moving it (known finding: it does not). NOT claimed: the invariant itself in every reachable state, agreement of listing/Stat/Open, mount and Sub compositions (their only namespace write is AddMount, C06), termination.")
 	c.Assume("A3: listing names are single valid elements", "A6: partial correctness")
 	c.RuleDoc("R03.1", "parent is a directory before any create")
 	c.RuleDoc("R03.2", "root is never deleted, moved or replaced")
@@ -83,6 +83,7 @@ func runC03(c *core.Ctx) {
 	c.RuleDoc("R03.4", "directories are deleted only when empty")
 	c.RuleDoc("R03.6", "every prefix test between names in keyvalue, mem, mount and the helpers is on a path-element boundary")
 	c.RuleDoc("R03.7", "a mode update keeps the record's type bits")
+	c.RuleDoc("R03.9", "the mount file system does not move an ancestor of a mount point")
 	c.RuleDoc("R03.8", "directory rename: destination record first, children next, source record last")
 	c.RuleDoc("R03.5", "a record is stored under a path only where that path was found absent or not a directory")
 	for _, p := range c.Progs {
@@ -98,6 +99,7 @@ func runC03(c *core.Ctx) {
 		boundaryTests(c, p, "R03.6", "keyvalue", "mem", "mount", "")
 		r03KindKept(c, p, "R03.7")
 		r03RenameOrder(c, p, sh)
+		r03MountAncestors(c, p)
 	}
 	c.Floor("R03.1", 5)
 	c.Floor("R03.2", 3)
@@ -107,6 +109,7 @@ func runC03(c *core.Ctx) {
 	c.Floor("R03.6", 3)
 	c.Floor("R03.7", 2)
 	c.Floor("R03.8", 1)
+	c.Floor("R03.9", 1)
 }
 
 // pathDirOf: v is path.Dir(x); returns x.
@@ -794,4 +797,48 @@ func r03RenameOrder(c *core.Ctx, p *load.Program, sh *kvShape) {
 	default:
 		c.OK("R03.8", key, p.Pos(fn.Pos()), "every child move happens after the destination record was stored and before the source record is deleted")
 	}
+}
+
+// r03MountAncestors (R03.9): the mount file system refuses to move a directory that has a mount point at or below it:
+// before Rename delegates, the old name is compared with the mount table (a scan of the table in which a stored
+// mount path is tested against the name as prefix). Otherwise the mount point keeps resolving (Stat succeeds) but
+// its parent no longer exists and no listing contains it.
+func r03MountAncestors(c *core.Ctx, p *load.Program) {
+	rn := p.Method("mount", "FS", "Rename")
+	if rn == nil {
+		c.Hard("anchor: mount.(*FS).Rename")
+		return
+	}
+	key := "mount.FS.Rename|refuses-ancestor-of-mount-point"
+	// a Range over the mount table (directly or in a callee that receives a name parameter of Rename) whose
+	// callback tests HasPrefix(<stored mount path>, name + "/") or equality of a stored path with the name
+	checks := false
+	var visit func(fn *ssa.Function, d int)
+	seen := map[*ssa.Function]bool{}
+	visit = func(fn *ssa.Function, d int) {
+		if fn == nil || seen[fn] || d > 2 || fn.Blocks == nil {
+			return
+		}
+		seen[fn] = true
+		ssax.InstrsDeep(fn, func(f *ssa.Function, ins ssa.Instruction) {
+			cl, ok := ins.(*ssa.Call)
+			if !ok {
+				return
+			}
+			if ssax.CalleeIs(cl, "strings", "HasPrefix") && f.Parent() != nil {
+				// inside a Range callback: first argument is the stored key (type-asserted from the callback's parameter)
+				if ta, ok := ssax.Unwrap(cl.Call.Args[0]).(*ssa.TypeAssert); ok {
+					if _, isParam := ta.X.(*ssa.Parameter); isParam && endsInSlash(cl.Call.Args[1]) {
+						checks = true
+					}
+				}
+			}
+			if callee := ssax.StaticCallee(cl); callee != nil && p.InModule(callee) && callee != fn {
+				visit(callee, d+1)
+			}
+		})
+	}
+	visit(rn, 0)
+	c.Check(checks, "R03.9", key, p.Pos(rn.Pos()), "Rename scans the mount table for mount points below the old name before it moves anything",
+		"mount.FS.Rename never compares the old name with the mount table: Rename(\"p\", \"q\") with a file system mounted at p/a succeeds in the underlying file system — Stat(\"p/a\") still resolves through the mount, but p does not exist and no directory lists the mount point (the helpers' Remove/RemoveAll of an ancestor behave alike)")
 }
